@@ -18,7 +18,7 @@ abbrev Text := List Nat
 
 /-- Exceptions that can leave the modelled functions. -/
 inductive Err where
-  | assertion      -- `assert value > 0`
+  | assertion      -- `assert 0 < value < ROMAN_MAX`, `assert value > 0`
   | index          -- `ROMAN_ONES[index]` out of range
   | syntax         -- PDFSyntaxError (settings.STRICT only)
   | fuel           -- model artefact: loop bound exhausted (proved unreachable)
@@ -100,10 +100,10 @@ def romanLoop : Nat → Nat → Nat → List Text → Except Err (List Text)
       let r ← romanStep index (value % 10) result
       romanLoop fuel (value / 10) (index + 1) r
 
-/-- `thousands, value = divmod(value, 1000)`, the loop over the three low digits, then
-`result.insert(0, ROMAN_ONES[3] * thousands)` (repaired code: no upper bound any more). -/
+/-- `assert 0 < value < ROMAN_MAX` (the translated constant), `thousands, value = divmod(value, 1000)`,
+the loop over the three low digits, then `result.insert(0, ROMAN_ONES[3] * thousands)`. -/
 def formatIntRoman (value : Int) : Except Err Text :=
-  if 0 < value then do
+  if 0 < value ∧ value < ROMAN_MAX then do
     let r ← romanLoop 3 (value.toNat % 1000) 0 []
     let m ← listGet ROMAN_ONES 3
     pure ((rep m (value.toNat / 1000) :: r).flatten)
